@@ -273,7 +273,7 @@ def rule_stack(rep, res, entry=None, sym="bs"):
     # padded last batch: the padding is appended at the tail, so the valid rows are the leading ones
     for ev in res.events("inplace"):
         v = ev.d["value"]
-        if v.tag("suffix_slice") and sol_ids(v):
+        if v.tag("suffix_slice") and v.tag("suffix_slice") != ("N",) and sol_ids(v):      # (the last rows of the SAMPLE axis are the last batch: fine)
             rep.violated("R-STACK", "valid rows of a padded batch are its leading rows", where=ev.loc, construct=ev.text(), entry=entry,
                          config=res.config,
                          msg="the rows copied back from the stacked solution are taken from its END (x[-k:]); the zero padding of the last "
@@ -712,8 +712,25 @@ def rule_effect_free(rep, res, entry=None, allowed=(), rule="R-EFFECT", reg=None
         for e in es:
             v = e.d.get("val")
             if v is not None:
-                deps |= {o[5:] for o in v.flat().deps_all() if o.startswith("self.") and o[5:] != attr}
+                deps |= {o[5:] for o in v.flat().deps_all() if o.startswith("self.") and o[5:] != attr and not o[5:].startswith("_")}
         stale = sorted(r for r, ws in reg.items() if (ws & deps) and attr not in ws)
+        # a cache that stores, next to the value, a KEY computed from everything the value depends on (the bytes of A, lb, ub, K, …)
+        # cannot go stale whatever changes the fields: a changed field is a different key
+        want = {"self." + d for d in deps}
+        def covers(kv):
+            return kv is not None and want and want <= set(kv.flat().deps_all())
+        keyed = False
+        for e in es:
+            v = e.d.get("val")
+            if covers(e.d.get("key")):
+                keyed = True
+            if v is not None and v.items and len(v.items) >= 2 and any(covers(it) for it in v.items[:-1]):
+                keyed = True
+        if stale and keyed:
+            rep.undecided(rule, "query leaves the estimator unchanged", where=ev.loc, construct=ev.text(), entry=entry, config=res.config,
+                          msg=f"self.{attr} caches a value together with a key computed from all of {sorted(deps)}: a changed field is a different "
+                              f"key, so it cannot go stale (that the key is compared on every read is not decided)")
+            continue
         if stale:
             rep.violated(rule, "query leaves the estimator unchanged", where=ev.loc, construct=ev.text(), entry=entry, config=res.config,
                          msg=(f"{what}: it " if what else "a query ") + f"caches a value computed from {sorted(deps)} in self.{attr}, "
